@@ -419,6 +419,10 @@ class Context:
             if len(args) < 2:
                 return UNDEFINED
             obj, proto = args[0], args[1]
+            if obj is UNDEFINED or obj is NULL:
+                from .errors import JSTypeError
+
+                raise JSTypeError("Object.setPrototypeOf called on null or undefined")
             if not isinstance(obj, JSObject):
                 return obj
             if proto is NULL or proto is None:
@@ -435,6 +439,10 @@ class Context:
                     current = current._prototype
                 obj._prototype = proto
                 obj._null_prototype = False
+            else:
+                from .errors import JSTypeError
+
+                raise JSTypeError("Object prototype may only be an Object or null")
             return obj
 
         def define_property(*args):
@@ -509,6 +517,10 @@ class Context:
                 obj._null_prototype = True
             elif isinstance(proto, JSObject):
                 obj._prototype = proto
+            else:
+                from .errors import JSTypeError
+
+                raise JSTypeError("Object prototype may only be an Object or null")
 
             if properties is not UNDEFINED and isinstance(properties, JSObject):
                 define_properties(obj, properties)
